@@ -13,7 +13,7 @@
 //! - Branchless operations where possible
 
 use crate::error::{Result, ZiporaError};
-use crate::hash_map::ZiporaHashMap;
+use crate::hash_map::{ZiporaHashMap, ZiporaHashMapIterator};
 use std::fmt;
 use std::hash::Hash;
 use std::mem::MaybeUninit;
@@ -586,9 +586,9 @@ impl<K: PartialEq + Hash + Eq + 'static + Clone, V: Clone> SmallMap<K, V> {
                 index: 0,
                 len: *len,
             },
-            SmallMapStorage::Large(_map) => {
-                // TODO: Implement iterator support for ZiporaHashMap
-                panic!("Iterator not yet implemented for large maps with ZiporaHashMap")
+            SmallMapStorage::Large(map) => SmallMapIter::Large {
+                iter: map.iter(),
+                remaining: map.len(),
             },
         }
     }
@@ -695,7 +695,7 @@ impl<K: PartialEq + Hash + Eq + 'static + Clone, V: PartialEq + Clone> PartialEq
 impl<K: Eq + PartialEq + Hash + 'static + Clone, V: Eq + Clone> Eq for SmallMap<K, V> {}
 
 /// Iterator over SmallMap key-value pairs
-pub enum SmallMapIter<'a, K, V> {
+pub enum SmallMapIter<'a, K: Clone, V: Clone> {
     /// Iterator for small maps
     Small {
         keys: &'a [MaybeUninit<K>; SMALL_MAP_THRESHOLD],
@@ -703,11 +703,14 @@ pub enum SmallMapIter<'a, K, V> {
         index: usize,
         len: usize,
     },
-    // Iterator for large maps - temporarily disabled until ZiporaHashMap iterator is implemented
-    // Large(crate::hash_map::Iter<'a, K, V>),
+    /// Iterator for large (promoted) maps, delegating to the ZiporaHashMap iterator
+    Large {
+        iter: ZiporaHashMapIterator<'a, K, V>,
+        remaining: usize,
+    },
 }
 
-impl<'a, K, V> Iterator for SmallMapIter<'a, K, V> {
+impl<'a, K: Clone, V: Clone> Iterator for SmallMapIter<'a, K, V> {
     type Item = (&'a K, &'a V);
 
     fn next(&mut self) -> Option<Self::Item> {
@@ -728,7 +731,13 @@ impl<'a, K, V> Iterator for SmallMapIter<'a, K, V> {
                     None
                 }
             }
-            // SmallMapIter::Large(iter) => iter.next(),
+            SmallMapIter::Large { iter, remaining } => {
+                let item = iter.next();
+                if item.is_some() {
+                    *remaining = remaining.saturating_sub(1);
+                }
+                item
+            }
         }
     }
 
@@ -738,12 +747,12 @@ impl<'a, K, V> Iterator for SmallMapIter<'a, K, V> {
                 let remaining = len - index;
                 (remaining, Some(remaining))
             }
-            // SmallMapIter::Large(iter) => iter.size_hint(),
+            SmallMapIter::Large { remaining, .. } => (*remaining, Some(*remaining)),
         }
     }
 }
 
-impl<'a, K, V> ExactSizeIterator for SmallMapIter<'a, K, V> {}
+impl<'a, K: Clone, V: Clone> ExactSizeIterator for SmallMapIter<'a, K, V> {}
 
 // =============================================================================
 // SIMD-OPTIMIZED SEARCH IMPLEMENTATIONS
